@@ -56,7 +56,7 @@ Theorem C13_definition_shape :
     definition f taken = Ok (p, w) ->
     exists vs q ts rhs tv,
       f = FQ QForall vs (FBin CIff (FAtomic (AAtom q ts)) rhs) /\ p = mkpred q (List.length ts) /\
-      NoDup vs /\ terms_as_vars ts [] = Some tv /\ (forall v, In v vs <-> In v tv) /\
+      NoDup vs /\ terms_as_vars ts [] = inl tv /\ (forall v, In v vs <-> In v tv) /\
       ~ In p taken /\ (forall v, In v (free_variables rhs) -> In v vs) /\
       (forall r, In r (predicates rhs) -> In r taken).
 Proof. exact definition_shape. Qed.
@@ -109,7 +109,7 @@ Example C13_no_weakening :
   let X := mkvar "X" SGeneral in
   let weird := mkannot RDefinition DUniversal "d"
                  (FQ QForall [X] (FBin CIff (FAtomic (AAtom "p" [GVar "X"])) (FAtomic (AAtom "zzz" [GVar "X"])))) in
-  definition (an_formula weird) [] = Err UndefinedRhsPredicate /\ ~ outline_chain [] [] [weird].
+  definition (an_formula weird) [] = Err (UndefinedRhsPredicate (an_formula weird) (mkpred "zzz" 1)) /\ ~ outline_chain [] [] [weird].
 Proof.
   cbv zeta. split; [vm_compute; reflexivity|]. intros H.
   inversion H; subst.
@@ -307,7 +307,7 @@ Example F12_witness :
                  (FQ QForall [X] (FBin CImp (FAtomic (AAtom "aux" [GVar "X"])) (FAtomic (AAtom "in" [GVar "X"])))) in
   let def := mkannot RDefinition DUniversal "d"
                (FQ QForall [X] (FBin CIff (FAtomic (AAtom "aux" [GVar "X"])) (FAtomic (AAtom "in" [GVar "X"])))) in
-  from_specification [lemma; def] [mkpred "in" 1] [] = Err TakenPredicate /\
+  from_specification [lemma; def] [mkpred "in" 1] [] = Err (TakenPredicate (mkpred "aux" 1)) /\
   ~ F12_free [] [lemma; def] [] /\ ~ strictly_fresh [] [lemma; def] [mkpred "in" 1] /\
   (exists o ws, from_specification [def; lemma] [mkpred "in" 1] [] = Ok (o, ws)) /\
   strictly_fresh [] [def; lemma] [mkpred "in" 1].
